@@ -1,7 +1,7 @@
 #!/bin/bash
 # Usage: confirm_seeded.sh <ID>   (scratch worktree /tmp/wt_<ID>, outputs /tmp/seed_<ID>)
 # Confirms: demo fails with the change, passes without; prints patch stats.
-ID=$1; WT=/tmp/wt_$ID; OUT=/tmp/seed_$ID
+ID=$1; PRE=${2:-}; WT=/tmp/wt${PRE}_$ID; OUT=/tmp/seed${PRE}_$ID
 cd $WT || exit 2
 echo "== patch stat"; git diff --stat | tail -3
 export PYTHONPATH=$WT NUMBA_CACHE_DIR=$OUT/numba_cache
